@@ -20,11 +20,12 @@ TokSet ==
                           <<123,50,125>>, <<123,50,44,49,125>>, <<91>>, <<93>>, <<94>>, <<92,49>>, <<92>> }
     [] Toks = "wide" -> { <<97>>, <<40>>, <<40,63,58>>, <<41>>, <<124>>, <<42>>, <<63>>, <<123,50,125>>,
                           <<123,49,44>>, <<125>>, <<91>>, <<93>>, <<94>>, <<45>>, <<92,49>>, <<92>>, <<36>>, <<46>>,
-                          <<92,100>>, <<92,112,123,76,125>>, <<92,36>>, <<123>>, <<44>>, <<48>> }
+                          <<92,100>>, <<92,112,123,76,125>>, <<92,36>>, <<123>>, <<44>>, <<48>>,
+                          <<123,49,125>>, <<123,48,125>>, <<123,49,44,49,125>> }
     [] Toks = "class" -> { <<91>>, <<93>>, <<94>>, <<45>>, <<97>>, <<98>>, <<92,100>>, <<92,93>>, <<92,45>>, <<45,91>>,
                            <<92,49>>, <<92>> }
     [] Toks = "meta" -> { <<97>>, <<98>>, <<40>>, <<41>>, <<91>>, <<93>>, <<123>>, <<125>>, <<92>>, <<63>>, <<42>>,
-                          <<43>>, <<124>>, <<46>>, <<94>>, <<36>> }
+                          <<43>>, <<124>>, <<46>>, <<94>>, <<36>>, <<32>>, <<9>> }
 FlagSet == {115, 109, 105, 120, 113, 97, 88, 32, 59, 103}      \* s m i x q a X space ; g
 
 TInit == str = <<>>
